@@ -117,6 +117,22 @@ CLAIMED = {
              'messages, delivery TTL not reached. Proved for the code after fixes 7dca4fc, 00c3b4e, d468104 (16-bit reference, numeric join order, UDH in message_payload). No axioms.',
         technique='Coq proof: invariant over arrival prefixes + uniqueness of strictly sorted lists; PDU-level trace correspondence through the real receiver',
         design='6 (C09)'),
+    'C02': dict(
+        text='Coq theorems (Props/C02.v) over an executable model of the decision logic of ESME._handle_response / the receipt branch of '
+             '_handle_request and the SimpleCorrelator operations they call (get with segment-status update, put_delivery, get_delivery, '
+             'get_segmented, cumulated status): an accepted response stores the original message under the SMSC id; a receipt for a stored id of '
+             'an unsegmented message carries that identity and consumes the id (duplicates become unknown); unknown or id-less receipts get empty '
+             'identity and change nothing; and for one segmented message accepted in full, with ANY number k>=2 of segments and ANY admissible '
+             'interleaving of its puts, responses and receipts, every receipt but the completing one yields the placeholder and the completing one '
+             'exactly one receipt event with the message identity - a failing one as soon as any segment failed. Tied to the code by driving the real '
+             'handlers and correlator with real PDUs (independent encoder) over histories of 1-5 concurrent messages and comparing hook outputs, '
+             'throttle counters and all four stores with the model evaluated in Coq.',
+        note='Trusted: Coq kernel, translator, harness + smppref.py. The segmented theorem is proved for one message in isolation (its events in any '
+             'order); mixes of concurrent messages are covered by the correspondence runs and the oracle, not by the theorem. Hypotheses: error codes '
+             'below 65532 (the internal status codes), distinct references among live segmented messages (8-bit reference reuse is a C01 finding), no '
+             'expiry during the history. Proved for the code after fix d1270d3 (status cell covers all segments from the first put). No axioms.',
+        technique='Coq proof: per-message phase invariant over dict lookups, one lemma per event kind, induction over admissible event lists; PDU-level trace correspondence',
+        design='6 (C02)'),
 }
 
 PENDING_REASON = 'check not built yet in this round (planned, see DESIGN.md section 6); not claimed until its proof and correspondence run exist'
